@@ -932,3 +932,211 @@ def atom_str(a):
     if a[0] == 'bool':
         return '%s == %s' % (vstr(a[1])[:70], a[2])
     return str(a)[:80]
+
+
+# ---- deepening round: data flow of the codec functions, serde schema symmetry, adapters ------------------------
+SPLIT = 'core::str::<impl str>::split_once'
+HEXDEC = 'hex::decode'
+
+
+def is_param(v, fn, i):
+    v = strip(v)
+    return v[0] == 'param' and v[1] == fn.path and v[2] == i
+
+
+def split_part(v, fn, i):
+    """v is exactly the i-th component of `<param 0 of fn>.split_once(':')` (identity conversions such as
+    String::from / to_owned / to_string / clone are transparent in the value normal form; trim, case folding,
+    slicing, .. are not)"""
+    v = strip(v)
+    if v[0] != 'field' or str(v[2]) != str(i):
+        return False
+    b = strip(v[1])
+    return b[0] == 'call' and b[1] == SPLIT and len(b[2]) == 2 and is_param(b[2][0], fn, 0) and strip(b[2][1]) == ('const', ':')
+
+
+def acceptor_parts(sl, fs, oks):
+    """problems with the parts an accepted checksum is made of, for every Ok outcome (decisions, payload) of from_str:
+    name = part 0 of split_once(':'), value = payload of hex::decode(part 1), and the two compatibility tests look at
+    that name and at the length of that value"""
+    probs = []
+    for atoms, p in oks:
+        ck = strip(sl.inline_deep(p))
+        fl = dict(ck[3]) if ck[0] == 'agg' else {}
+        name_v, val_v = fl.get('name', ('unknown',)), strip(fl.get('value', ('unknown',)))
+        if not split_part(name_v, fs, 0):
+            probs.append('name is %s, not the text before the first colon' % vstr(name_v)[:80])
+        if not (val_v[0] == 'call' and val_v[1] == HEXDEC and len(val_v[2]) == 1 and split_part(val_v[2][0], fs, 1)):
+            probs.append('value is %s, not hex::decode(text after the first colon)' % vstr(val_v)[:80])
+        for a in atoms:
+            if a[0] != 'bool' or a[1][0] != 'call':
+                continue
+            n, args = a[1][1], a[1][2]
+            if n.endswith('Digest::name_compatible') and not (len(args) == 1 and canon(strip(args[0])) == canon(strip(name_v))):
+                probs.append('name_compatible looks at %s' % vstr(args[0])[:60] if args else 'name_compatible()')
+            if n.endswith('Digest::length_compatible'):
+                l = strip(args[0]) if args else ('unknown',)
+                if not (l[0] == 'call' and l[1].endswith('::len') and len(l[2]) == 1 and canon(strip(l[2][0])) == canon(val_v)):
+                    probs.append('length_compatible looks at %s' % vstr(l)[:60])
+    return probs
+
+
+def acceptor_extra_conditions(fs, oks):
+    """decisions on the way to an Ok outcome other than: split_once(':') found a colon, hex::decode succeeded,
+    name_compatible, length_compatible.  from_str is deterministic, so when the accepting paths depend on these four
+    only, every rejecting path differs from an accepting one in one of them: accepted <=> all four hold"""
+    extra = []
+    for atoms, p in oks:
+        for a in atoms:
+            if a[0] == 'res' and a[2] == 'ok' and a[1][0] == 'call' and a[1][1] in (SPLIT, HEXDEC):
+                continue
+            if a[0] == 'variant' and a[1][0] == 'call' and a[1][1] in (SPLIT, HEXDEC) and frozenset(a[3]) <= {'Some', 'Ok'}:
+                continue
+            if a[0] == 'bool' and a[2] is True and a[1][0] == 'call' and a[1][1].endswith(('Digest::name_compatible', 'Digest::length_compatible')):
+                continue
+            extra.append(atom_str(a))
+    return extra
+
+
+def flow_through(prog, sl, fn, inner, arg_ok):
+    """(ok?, why) — the fallible function fn succeeds exactly with the success payload of the call `inner(..)` whose
+    arguments satisfy arg_ok, and fails whenever that call fails (Ok outcomes of result_paths)"""
+    try:
+        rp = result_paths(prog, sl, fn)
+    except Giveup as e:
+        return None, 'outcomes not understood: %s' % e
+    oks = [(a, p) for a, k, p in rp if k == 'ok']
+    if not oks:
+        return False, 'no successful outcome'
+    for atoms, p in oks:
+        v = strip(sl.inline_deep(p)) if p is not None else ('unknown',)
+        if not (v[0] == 'call' and inner(v[1]) and arg_ok(v[2])):
+            return False, 'succeeds with %s' % vstr(v)[:120]
+        for a in atoms:
+            if a[0] == 'res' and a[2] == 'err' and a[1][0] == 'call' and inner(a[1][1]):
+                return False, 'succeeds although %s failed' % vstr(a[1])[:80]
+    return True, ''
+
+
+def schema_problems(prog, sl, ty):
+    """(problems, unknowns) for the round trip of a derived Serialize / Deserialize pair of a workspace struct or
+    unit-variant enum, read off the generated code (lib.serde_schema): every field is written under a key the
+    reader maps back to the same field; a field may be left out only under a predicate whose 'left out' value is the
+    reader's default; every variant is written under a name the reader maps back to the same variant"""
+    from .lib import serde_schema as SS
+    adt = prog.adts.get(ty)
+    de, se = SS.deser_struct(prog, sl, ty), SS.ser_struct(prog, sl, ty)
+    if adt is None or de is None or se is None:
+        return [], ['no derived Serialize / Deserialize pair found for %s' % ty]
+    probs, unk = [], list(de['problems']) + list(se['problems'])
+    if adt['kind'] == 'enum':
+        if de['kind'] != 'enum' or se['kind'] != 'enum':
+            return [], unk + ['%s is not (de)serialised as a unit-variant enum' % ty]
+        for i, var in enumerate(adt['variants']):
+            s = se['variants'].get(var['name'])
+            if s is None:
+                probs.append('variant %s is not serialised' % var['name'])
+                continue
+            k = de['keys'].get(s)
+            if k is None:
+                probs.append('%s is written as "%s", which the reader does not know (it knows %s)' % (var['name'], s, sorted(de['keys'])))
+            elif k.index != i:
+                probs.append('"%s" is written for %s but read as %s' % (s, var['name'], adt['variants'][k.index]['name'] if k.index < len(adt['variants']) else k.index))
+        return probs, unk
+    fields = adt['variants'][0]['fields']
+    names = [f['name'] for f in fields]
+    fty = {f['name']: f['ty'] for f in fields}
+    written = {}
+    for key, k in se['keys'].items():
+        if not k.ser:
+            probs.append('key "%s" is never written (%s)' % (key, k.skip_pred))
+            continue
+        if k.field not in names:
+            unk.append('key "%s" is written from %s' % (key, k.field))
+            continue
+        written[k.field] = key
+        d = de['keys'].get(key)
+        if d is None or d.field != k.field:
+            probs.append('field %s is written as "%s", read back into %s' % (k.field, key, d.field if d else 'nothing'))
+            continue
+        if k.skip_pred is not None:
+            empty = k.skip_pred.endswith('::is_empty') and (d.default or '').endswith(('Default::default', 'Default>::default', 'Vec::<T>::new', 'String::new'))
+            none = k.skip_pred.endswith('::is_none') and d.default == 'None'
+            if d.required:
+                probs.append('field %s is left out when %s, but the reader requires "%s"' % (k.field, k.skip_pred, key))
+            elif not (empty or none):
+                unk.append('field %s is left out when %s and read back as %s' % (k.field, k.skip_pred, d.default))
+    for n in names:
+        if n not in written:
+            probs.append('field %s is not serialised' % n)
+    # the values go through the field types' own Serialize / Deserialize (no serialize_with / deserialize_with)
+    sf = next((f for f in (prog.fns.get(p) for p in se['fns']) if f is not None), None)
+    got = sorted(c.ga[1] for c in (sf.calls if sf else ()) if c.decl and c.decl.endswith('::serialize_field') and c.ga and len(c.ga) > 1)
+    if got != sorted(fty[n] for n in written):
+        unk.append('serialised value types %s differ from the field types' % got)
+    vm = next((f for f in (prog.fns.get(p) for p in de['fns']) if f is not None and f.path.endswith('::visit_map')), None)
+    got = sorted(c.ga[1] for c in (vm.calls if vm else ()) if c.decl and c.decl.endswith('MapAccess::next_value') and c.ga and len(c.ga) > 1 and not c.ga[1].endswith('IgnoredAny'))
+    if got != sorted(fty[n] for n in names):
+        unk.append('deserialised value types %s differ from the field types' % got)
+    return probs, unk
+
+
+# in-place mutation: the value normal form follows what is *assigned*; a `&mut self` method applied to a local
+# (`inventory.artifacts.dedup_by(..)`, `text.make_ascii_lowercase()`, `bytes.truncate(n)`) changes the data without a
+# new definition.  The data-flow obligations above are only meaningful when nothing of that kind happens in the
+# functions they read, so those are listed here (fail closed).  Mutators the normal form does model are exempt.
+MODELLED_MUT = ('std::string::String::push_str', 'std::string::String::push', 'std::iter::Iterator::next', 'std::fmt::Write::write_fmt', 'std::fmt::Write::write_str',
+                'std::fmt::Write::write_char')
+
+
+def _code_of(prog, fn, depth=0, seen=None):
+    """fn, its closures and the private workspace functions it calls (what inline_deep / result_paths look through)"""
+    seen = seen if seen is not None else {}
+    if fn.path in seen or depth > 6:
+        return seen
+    seen[fn.path] = fn
+    for g in prog.closures_of(fn):
+        _code_of(prog, g, depth + 1, seen)
+    for c in fn.calls:
+        g = prog.fns.get(c.name) if c.name else None
+        if g is not None and g.crate == fn.crate and g.kind != 'Closure' and not g.impl_trait and g.vis != 'pub' and g.blocks:
+            _code_of(prog, g, depth + 1, seen)
+    return seen
+
+
+def inplace_mutations(prog, fn, ignore_ty=('std::fmt::Formatter',)):
+    """['<local> is changed in place by <callee> in <fn>'] for every `&mut` borrow of a local that is handed to a call
+    outside MODELLED_MUT, and every assignment to a part of a local"""
+    out = []
+    for g in _code_of(prog, fn).values():
+        for li in range(len(g.locals)):
+            ty = g.local_ty(li) or ''
+            if any(t in ty for t in ignore_ty):
+                continue
+            nm = g.local_name(li) or '_%d' % li
+            if li != 0 and g.partial_defs(li) and g.local_name(li):
+                out.append('a part of %s is assigned in %s' % (nm, g.path.split('::')[-1]))
+            for u in g.uses_of(li):
+                if u[1] != 'stmt' or u[3] != 'refmut':
+                    continue
+                st = g.blocks[u[0]]['s'][u[2]]
+                dest = st[1] if isinstance(st[1], (list, tuple)) else None
+                dl = dest[0] if dest else None
+                users = [c for c in g.calls if dl is not None and any((op_place(a) or [None])[0] == dl for a in c.args)]
+                if not users:
+                    # the borrow is stored / re-borrowed: follow one level of re-borrow, otherwise report it
+                    users = [c for c in g.calls for a in c.args for d in g.whole_defs((op_place(a) or [None])[0] or -1)
+                             if d[0] == 'stmt' and d[3].get('r') in ('ref', 'use', 'cast') and any(pl[0] == dl for pl, _ in _rv_places(d[3]))] if dl is not None else []
+                    if not users:
+                        out.append('%s is borrowed mutably in %s' % (nm, g.path.split('::')[-1]))
+                for c in users:
+                    cn = c.decl or c.name or '?'
+                    if cn in MODELLED_MUT or (c.name or '') in MODELLED_MUT or cn.startswith("std::fmt::Formatter::<'a>::"):
+                        continue
+                    out.append('%s is changed in place by %s' % (nm, (c.name or cn)))
+    return sorted(set(out))
+
+
+def _rv_places(rv):
+    from .lib.mir import _rvalue_places
+    return list(_rvalue_places(rv))
